@@ -713,3 +713,12 @@ M("compose-alternation-split-escaped", "C02", [(PRE, 'if len(_re.split(pattern=r
 M("compose-backslash-pairs-not-neutralised", ["C02"], [(PRE, '        pattern = _re.sub(r"\\\\{2}", "a", pattern)\n', '')], rule="R-COMPOSE")
 M("compose-quantifier-recogniser-drops-lazy", ["C02", "C04"], [(PRE, 'r"(?:\\\\.|[^\\\\])?(?:\\?|\\*|\\+|\\{(?:\\d+|\\d+,|,\\d+|\\d+,\\d+)\\})"', 'r"(?:\\\\.|[^\\\\])?(?:\\*|\\+|\\{(?:\\d+|\\d+,|,\\d+|\\d+,\\d+)\\})"')], expect="silent")  # 'a?' then typed Other: still grouped when quantified
 M("compose-is-group-ignores-escapes", "C02", [(PRE, '                    if prev_char != "\\\\": ', '                    if True: ')], rule="R-COMPOSE")
+
+# ---------------------------------------------------------------- scale-dependent variants
+M("c04-two-digit-bound-truncated", "C04", [(PRE, """            return __class__(
+                f"{self._quantify_conditional_group()}{{{n}}}",
+                escape=False)""", """            return __class__(
+                f"{self._quantify_conditional_group()}{{{n if n < 10 else 9}}}",
+                escape=False)""")], rule="R-QUANT")
+M("c04-magic-bound-37", "C04", [(PRE, """                f"{self._quantify_conditional_group()}{{{n},}}{'' if is_greedy else '?'}",""", """                f"{self._quantify_conditional_group()}{{{n if n != 37 else 36},}}{'' if is_greedy else '?'}",""")], rule="R-QUANT")
+M("c04-range-upper-mod-100", "C04", [(PRE, """                    f"{self._quantify_conditional_group()}{{{n},{m}}}{'' if is_greedy else '?'}",""", """                    f"{self._quantify_conditional_group()}{{{n},{m % 100 if m >= 100 else m}}}{'' if is_greedy else '?'}",""")], rule="R-QUANT")
